@@ -1219,6 +1219,10 @@ def sequence_features(muts, batched=True, spec=None):
 
             if key in type_fields:
                 type_fields.add(new_key)
+
+            if key in notnull_fixed:
+                # the null round trip survives a rename of the field in between
+                notnull_fixed.add(new_key)
         elif kind == 'ChangeField':
             kwargs = desc[3]
 
@@ -2379,9 +2383,9 @@ def suite_C03(tier='quick', seed=0):
         sc = {'spec': SEQ_SPEC, 'rows': SEQ_ROWS, 'muts': seq}
 
         if tier == 'quick':
-            # The Evolver pipeline costs ~4 plain runs: every 2nd scenario.
-            sc['evolver'] = (i % 2 == 0)
-            sc['evolver_parts'] = [1 if i % 4 else 2]
+            # The Evolver pipeline costs ~4 plain runs: every 3rd scenario.
+            sc['evolver'] = (i % 3 == 0)
+            sc['evolver_parts'] = [1 if i % 2 else 2]
         elif tags[i] == 'bulk':
             sc['evolver'] = (i % 8 == 0)
             sc['evolver_parts'] = [2]
@@ -3897,7 +3901,7 @@ def suite_C18(tier='quick', seed=0):
         sc = {'spec': SEQ_SPEC, 'rows': SEQ_ROWS, 'muts': seq}
 
         if tier == 'quick':
-            sc['evolver'] = (i % 2 == 0)
+            sc['evolver'] = (i % 3 == 0)
         elif tags[i] == 'bulk':
             sc['evolver'] = (i % 8 == 0)
 
@@ -6039,6 +6043,103 @@ _WITNESS_JSON = r'''
    }
   }
  },
+ "C01|schema-equals-fresh|optimizer-merges-changefield-across-type-change": {
+  "bystanders": [
+   "Z"
+  ],
+  "family": "sequence",
+  "muts": [
+   [
+    "AddField",
+    "B",
+    "y",
+    "CharField",
+    {
+     "max_length": 8,
+     "null": true
+    }
+   ],
+   [
+    "AddField",
+    "B",
+    "lnk",
+    "ManyToManyField",
+    {
+     "related_model": "tests.A"
+    }
+   ],
+   [
+    "ChangeMeta",
+    "B",
+    "unique_together",
+    [
+     [
+      "b1",
+      "y"
+     ]
+    ]
+   ],
+   [
+    "RenameField",
+    "B",
+    "ref",
+    "r",
+    {}
+   ],
+   [
+    "AddField",
+    "A",
+    "x",
+    "IntegerField",
+    {
+     "initial": 7
+    }
+   ],
+   [
+    "ChangeField",
+    "B",
+    "y",
+    {
+     "field_type": "TextField",
+     "null": true
+    }
+   ],
+   [
+    "RenameField",
+    "A",
+    "a1",
+    "r",
+    {}
+   ],
+   [
+    "DeleteField",
+    "B",
+    "b1"
+   ]
+  ],
+  "rows": {
+   "A": [
+    {
+     "a1": "first",
+     "a2": 1,
+     "a3": "x"
+    }
+   ],
+   "B": [
+    {
+     "b1": 10,
+     "ref": 1
+    }
+   ],
+   "Z": [
+    {
+     "z1": "z-one",
+     "z2": 1
+    }
+   ]
+  },
+  "spec": "@SEQ_SPEC"
+ },
  "C01|schema-equals-fresh|positive-integer-check-not-created": {
   "bystanders": [
    "Z"
@@ -8128,17 +8229,28 @@ _WITNESS_JSON = r'''
   "spec": "@SEQ_SPEC"
  },
  "C03|batched-same-schema|optimizer-collapses-column-name-chain": {
-  "evolver": false,
   "evolver_parts": [
+   1,
    2
   ],
   "muts": [
    [
+    "AddField",
+    "B",
+    "lnk",
+    "ManyToManyField",
+    {
+     "related_model": "tests.A"
+    }
+   ],
+   [
     "RenameField",
     "A",
-    "a2",
+    "a1",
     "r",
-    {}
+    {
+     "db_column": "col_r"
+    }
    ],
    [
     "RenameField",
@@ -8148,49 +8260,51 @@ _WITNESS_JSON = r'''
     {}
    ],
    [
-    "ChangeMeta",
-    "A",
-    "unique_together",
-    [
-     [
-      "a1",
-      "a3"
-     ]
-    ]
-   ],
-   [
-    "DeleteField",
-    "A",
-    "x"
+    "ChangeField",
+    "B",
+    "b1",
+    {
+     "null": true
+    }
    ]
   ],
   "rows": "@SEQ_ROWS",
   "spec": "@SEQ_SPEC"
  },
  "C03|batched-same-schema|optimizer-confuses-reused-field-names": {
+  "evolver": true,
   "evolver_parts": [
-   1,
    2
   ],
   "muts": [
    [
-    "RenameField",
-    "B",
-    "ref",
-    "r",
-    {}
+    "AddField",
+    "A",
+    "x",
+    "IntegerField",
+    {
+     "initial": 7
+    }
    ],
    [
     "DeleteField",
-    "B",
-    "b1"
+    "A",
+    "a3"
    ],
    [
-    "RenameField",
-    "B",
-    "r",
-    "b1",
-    {}
+    "AddField",
+    "A",
+    "a3",
+    "CharField",
+    {
+     "initial": "i'%",
+     "max_length": 8
+    }
+   ],
+   [
+    "DeleteField",
+    "A",
+    "a3"
    ]
   ],
   "rows": "@SEQ_ROWS",
@@ -9291,35 +9405,62 @@ _WITNESS_JSON = r'''
   "muts": [
    [
     "RenameField",
-    "A",
-    "a1",
+    "B",
+    "b1",
     "r",
+    {}
+   ],
+   [
+    "ChangeMeta",
+    "B",
+    "constraints",
+    [
+     {
+      "fields": [
+       "r"
+      ],
+      "name": "uc_b",
+      "type": {
+       "__cls__": "UniqueConstraint"
+      }
+     }
+    ]
+   ],
+   [
+    "AddField",
+    "A",
+    "lnk",
+    "ManyToManyField",
     {
-     "db_column": "col_r"
+     "related_model": "tests.B"
     }
    ],
    [
-    "ChangeField",
+    "DeleteField",
     "A",
+    "lnk"
+   ],
+   [
+    "ChangeField",
+    "B",
     "r",
     {
      "db_column": "c_r"
     }
    ],
    [
-    "ChangeField",
+    "DeleteField",
     "A",
-    "r",
-    {
-     "db_index": true
-    }
+    "a1"
    ],
    [
-    "ChangeField",
-    "A",
-    "a2",
+    "AddField",
+    "B",
+    "y",
+    "CharField",
     {
-     "db_column": "c_a2"
+     "max_length": 8,
+     "null": true
     }
    ]
   ],
@@ -9831,3 +9972,18 @@ for _cause, _ref in (
     })
 
 _attach_witnesses()
+
+
+# Entries for which no run on the pinned tree produced a witness were never
+# observed: they are not recorded findings.
+for _known_list in (KNOWN_C01, KNOWN_C02, KNOWN_C03, KNOWN_C18):
+    _known_list[:] = [_entry for _entry in _known_list
+                      if _entry.get('inputs') is not None]
+
+
+# Defect classes repaired in /repo (see known_findings.json -> fixed): no longer an accepted explanation, so a
+# scenario that fails again for that reason is reported as an unknown failure.
+FIXED_IDS = set(['initial-values-bound-in-mutation-order'])
+
+for _lst in (KNOWN_C01, KNOWN_C02, KNOWN_C03, KNOWN_C18):
+    _lst[:] = [_e for _e in _lst if _e['id'] not in FIXED_IDS]
